@@ -60,6 +60,7 @@ int  vp_is_replay(void);
 int  vp_worker_id(void);
 int  vp_depth(void);                                /* number of choices taken so far in this execution */
 int  vp_cost_spent(void);
+int  vp_replaying(void);                             /* still inside the forced prefix of this execution */
 int  vp_bound(void);
 
 int vp_main(int argc, char **argv, const struct vp_harness *h);
